@@ -57,8 +57,8 @@ THOROUGH_GEN = [
     (("QUIT", "TERM"), False, 100),
     (("CHLD", "TERM"), True, 100),
     (("INT", "KILL"), True, 100),
-    (("INT", "QUIT", "TERM"), False, 5),
-    (("USR1", "CHLD", "INT"), False, 5),
+    (("INT", "QUIT", "TERM"), False, 4),
+    (("USR1", "CHLD", "INT"), False, 4),
     # all signal classes at once, from the two uniform start-ups (all default / all ignored)
     (("USR1", "CHLD", "INT", "QUIT", "TERM", "TSTP", "KILL", "STOP"), True, 2),
 ]
